@@ -120,7 +120,7 @@ def check_tree(res, case, c, toy, engine):
     if got_root != exp_root:
         res.violation(f"C12/{engine}/merkle-root", vc, got_root, exp_root, "tree hash differs from BIP341")
         return
-    res.ok("root==ref", nontrivial=("root", repr(shape), tuple(vers)))
+    res.ok("root==ref", nontrivial=("root", repr(shape), tuple(vers)), sample={"shape": shape, "leaf_versions": vers, "internal_secret": case["d"], "root": exp_root.hex()})
     # sibling order invariance
     for sw in swapped_variants(shape):
         o, _ = build_lib(sw, vers)
